@@ -6310,7 +6310,7 @@ impl RelationalEngine {
             },
 
             Condition::Eq(col, Value::Int(val)) => {
-                let (values, alive_words, _null_words) =
+                let (values, alive_words, null_words) =
                     self.slab().get_int_column(table, col).ok()?;
                 let row_count = values.len();
                 if row_count == 0 {
@@ -6318,13 +6318,14 @@ impl RelationalEngine {
                 }
                 let mut bitmap = vec![0u64; simd::bitmap_words(row_count)];
                 simd::filter_eq_i64(&values, *val, &mut bitmap);
+                Self::apply_null_mask(&mut bitmap, &null_words, false);
                 // AND with alive bitmap to exclude deleted rows
                 Self::apply_alive_mask(&mut bitmap, &alive_words);
                 Some((SelectionVector::from_bitmap(bitmap, row_count), row_count))
             },
 
             Condition::Ne(col, Value::Int(val)) => {
-                let (values, alive_words, _null_words) =
+                let (values, alive_words, null_words) =
                     self.slab().get_int_column(table, col).ok()?;
                 let row_count = values.len();
                 if row_count == 0 {
@@ -6332,12 +6333,13 @@ impl RelationalEngine {
                 }
                 let mut bitmap = vec![0u64; simd::bitmap_words(row_count)];
                 simd::filter_ne_i64(&values, *val, &mut bitmap);
+                Self::apply_null_mask(&mut bitmap, &null_words, true);
                 Self::apply_alive_mask(&mut bitmap, &alive_words);
                 Some((SelectionVector::from_bitmap(bitmap, row_count), row_count))
             },
 
             Condition::Lt(col, Value::Int(val)) => {
-                let (values, alive_words, _null_words) =
+                let (values, alive_words, null_words) =
                     self.slab().get_int_column(table, col).ok()?;
                 let row_count = values.len();
                 if row_count == 0 {
@@ -6345,12 +6347,13 @@ impl RelationalEngine {
                 }
                 let mut bitmap = vec![0u64; simd::bitmap_words(row_count)];
                 simd::filter_lt_i64(&values, *val, &mut bitmap);
+                Self::apply_null_mask(&mut bitmap, &null_words, false);
                 Self::apply_alive_mask(&mut bitmap, &alive_words);
                 Some((SelectionVector::from_bitmap(bitmap, row_count), row_count))
             },
 
             Condition::Le(col, Value::Int(val)) => {
-                let (values, alive_words, _null_words) =
+                let (values, alive_words, null_words) =
                     self.slab().get_int_column(table, col).ok()?;
                 let row_count = values.len();
                 if row_count == 0 {
@@ -6358,12 +6361,13 @@ impl RelationalEngine {
                 }
                 let mut bitmap = vec![0u64; simd::bitmap_words(row_count)];
                 simd::filter_le_i64(&values, *val, &mut bitmap);
+                Self::apply_null_mask(&mut bitmap, &null_words, false);
                 Self::apply_alive_mask(&mut bitmap, &alive_words);
                 Some((SelectionVector::from_bitmap(bitmap, row_count), row_count))
             },
 
             Condition::Gt(col, Value::Int(val)) => {
-                let (values, alive_words, _null_words) =
+                let (values, alive_words, null_words) =
                     self.slab().get_int_column(table, col).ok()?;
                 let row_count = values.len();
                 if row_count == 0 {
@@ -6371,12 +6375,13 @@ impl RelationalEngine {
                 }
                 let mut bitmap = vec![0u64; simd::bitmap_words(row_count)];
                 simd::filter_gt_i64(&values, *val, &mut bitmap);
+                Self::apply_null_mask(&mut bitmap, &null_words, false);
                 Self::apply_alive_mask(&mut bitmap, &alive_words);
                 Some((SelectionVector::from_bitmap(bitmap, row_count), row_count))
             },
 
             Condition::Ge(col, Value::Int(val)) => {
-                let (values, alive_words, _null_words) =
+                let (values, alive_words, null_words) =
                     self.slab().get_int_column(table, col).ok()?;
                 let row_count = values.len();
                 if row_count == 0 {
@@ -6384,12 +6389,13 @@ impl RelationalEngine {
                 }
                 let mut bitmap = vec![0u64; simd::bitmap_words(row_count)];
                 simd::filter_ge_i64(&values, *val, &mut bitmap);
+                Self::apply_null_mask(&mut bitmap, &null_words, false);
                 Self::apply_alive_mask(&mut bitmap, &alive_words);
                 Some((SelectionVector::from_bitmap(bitmap, row_count), row_count))
             },
 
             Condition::Lt(col, Value::Float(val)) => {
-                let (values, alive_words, _null_words) =
+                let (values, alive_words, null_words) =
                     self.slab().get_float_column(table, col).ok()?;
                 let row_count = values.len();
                 if row_count == 0 {
@@ -6397,12 +6403,13 @@ impl RelationalEngine {
                 }
                 let mut bitmap = vec![0u64; simd::bitmap_words(row_count)];
                 simd::filter_lt_f64(&values, *val, &mut bitmap);
+                Self::apply_null_mask(&mut bitmap, &null_words, false);
                 Self::apply_alive_mask(&mut bitmap, &alive_words);
                 Some((SelectionVector::from_bitmap(bitmap, row_count), row_count))
             },
 
             Condition::Gt(col, Value::Float(val)) => {
-                let (values, alive_words, _null_words) =
+                let (values, alive_words, null_words) =
                     self.slab().get_float_column(table, col).ok()?;
                 let row_count = values.len();
                 if row_count == 0 {
@@ -6410,12 +6417,13 @@ impl RelationalEngine {
                 }
                 let mut bitmap = vec![0u64; simd::bitmap_words(row_count)];
                 simd::filter_gt_f64(&values, *val, &mut bitmap);
+                Self::apply_null_mask(&mut bitmap, &null_words, false);
                 Self::apply_alive_mask(&mut bitmap, &alive_words);
                 Some((SelectionVector::from_bitmap(bitmap, row_count), row_count))
             },
 
             Condition::Eq(col, Value::Float(val)) => {
-                let (values, alive_words, _null_words) =
+                let (values, alive_words, null_words) =
                     self.slab().get_float_column(table, col).ok()?;
                 let row_count = values.len();
                 if row_count == 0 {
@@ -6423,6 +6431,7 @@ impl RelationalEngine {
                 }
                 let mut bitmap = vec![0u64; simd::bitmap_words(row_count)];
                 simd::filter_eq_f64(&values, *val, &mut bitmap);
+                Self::apply_null_mask(&mut bitmap, &null_words, false);
                 Self::apply_alive_mask(&mut bitmap, &alive_words);
                 Some((SelectionVector::from_bitmap(bitmap, row_count), row_count))
             },
@@ -6445,6 +6454,18 @@ impl RelationalEngine {
     }
 
     /// Apply alive bitmap mask to filter result (AND operation).
+    /// A NULL never satisfies `=`, `<`, `<=`, `>`, `>=` and always satisfies `!=`
+    /// (`Condition::evaluate`); the column stores a placeholder value for it.
+    fn apply_null_mask(bitmap: &mut [u64], null_words: &[u64], nulls_match: bool) {
+        for (word, nulls) in bitmap.iter_mut().zip(null_words) {
+            if nulls_match {
+                *word |= nulls;
+            } else {
+                *word &= !nulls;
+            }
+        }
+    }
+
     fn apply_alive_mask(bitmap: &mut [u64], alive_words: &[u64]) {
         for (i, word) in bitmap.iter_mut().enumerate() {
             if i < alive_words.len() {
